@@ -248,7 +248,8 @@ class RebuildCheck:
             return gs
         if self.id == "C14":
             for fam in FAMILIES:
-                for sh in ("S1", "D2n", "D3s", "D1n", "D2rr", "D1rr", "D3n"):
+                for sh in ("S1", "D2n", "D3s", "D1n", "D2rr", "D1rr", "D3n",
+                           "D3part"):
                     if sh == "D1n" and "v2" in fam.lower():
                         continue
                     gs.append({"kind": "prestate", "family": fam, "shape": sh,
